@@ -45,6 +45,10 @@ package claim
 //@ site (claim.ConnectionPropagator).PropagateConnection(_, _, $to, $from)
 //@   assert [C06:bound-before-propagate] $to == $cm && $from == $xr && cmp.Equal($cm.GetReference(), $xr.GetClaimReference())
 //@   assert [C05:propagate-only-ready] resource.IsConditionTrue($xr.GetCondition(xpv1.TypeReady))
+//@   update propagatedOK = err == nil
+//@ ghost propagatedOK bool = false
+//@ site v1.Available() as report-available
+//@   assert [C09:claim-available-only-after-this-reconcile-propagated-the-connection-details] propagatedOK
 //@ site (*claim.Unstructured).SetConditions(_, $cs...)
 //@   assert [C05:claim-ready-only-if-xr-ready] forall i :: 0 <= i && i < len($cs) && $cs[i].Type == "Ready" && $cs[i].Status == "True" && $cs[i].Reason == "Available"
 //@        ==> resource.IsConditionTrue($xr.GetCondition(xpv1.TypeReady))
@@ -148,7 +152,7 @@ package claim
 //@ site (client.Writer).Patch(_, _, $o, _, $opts...)
 //@   assert [C06:xr-applied-after-binding] $o == $patch && claimBound
 //@   assert [C06:bound-to-this-xr] cm.GetResourceReference() != nil && cm.GetResourceReference().Name == $patch.GetName()
-//@   assert [C06:existing-reference-reused] (old(cm.GetResourceReference()) != nil && old(cm.GetResourceReference().Name) != "") ==>
+//@   assert [C06,C08:existing-reference-reused] (old(cm.GetResourceReference()) != nil && old(cm.GetResourceReference().Name) != "") ==>
 //@        $patch.GetName() == old(cm.GetResourceReference().Name)
 //@   update xrApplied = true
 
@@ -207,7 +211,7 @@ package claim
 //@   assert [C06:a-recorded-reference-is-never-replaced] old(cm.GetResourceReference()) != nil ==> cm.GetResourceReference().Name == old(cm.GetResourceReference().Name)
 //@ site (resource.Applicator).Apply(_, _, $o, $opts...)
 //@   assert [C06:xr-applied-after-binding] $o == xr && (claimBound || cmp.Equal(existing, proposed))
-//@   assert [C06:existing-reference-reused] (old(cm.GetResourceReference()) != nil) ==> xr.GetName() == old(cm.GetResourceReference().Name)
+//@   assert [C06,C08:existing-reference-reused] (old(cm.GetResourceReference()) != nil) ==> xr.GetName() == old(cm.GetResourceReference().Name)
 //@   update xrApplied = true
 //@ site (client.SubResourceWriter).Update(_, _, $o)
 //@   update statusUpdated = true
